@@ -127,7 +127,8 @@ def run_one(cfg, root):
     for k, var in [("os", "CNB_TARGET_OS"), ("arch", "CNB_TARGET_ARCH"), ("variant", "CNB_TARGET_ARCH_VARIANT"),
                    ("dname", "CNB_TARGET_DISTRO_NAME"), ("dver", "CNB_TARGET_DISTRO_VERSION")]:
         if cfg["vars"][k]:
-            env[var] = vals.get(k, {"os": "linux", "arch": "amd64", "variant": "v8", "dname": "ubuntu", "dver": "24.04"}[k])
+            val = vals.get(k, {"os": "linux", "arch": "amd64", "variant": "v8", "dname": "ubuntu", "dver": "24.04"}[k])
+            env[var] = bytes(val) if isinstance(val, list) else val
     envb = {k.encode(): (v if isinstance(v, bytes) else v.encode()) for k, v in env.items()}
     p = subprocess.run(["setpriv", "--reuid=65534", "--regid=65534", "--clear-groups",
                         os.path.join(root, "bin", cfg["exe"])] + args, cwd=os.path.join(root, "app"), env=envb,
